@@ -5,7 +5,6 @@
 
 from __future__ import annotations
 
-import contextlib
 import logging
 from collections.abc import Callable, Iterator
 from io import IOBase
@@ -245,13 +244,21 @@ class StreamSession:
             except (pa.ArrowInvalid, OSError, StopIteration):
                 return
         _MAX_DRAIN = 10_000
-        with contextlib.suppress(StopIteration, RpcError, pa.ArrowInvalid, OSError):
-            for _ in range(_MAX_DRAIN):
+        for _ in range(_MAX_DRAIN):
+            try:
                 # Drained batches are dropped, but a batch that arrived through shared
                 # memory still owns its region: release it or it is never freed.
                 _read_batch_with_log_check(
                     self._output_reader, self._on_log, self._external_config, shm=self._shm
                 ).release()
+            except (StopIteration, pa.ArrowInvalid, OSError):
+                break
+            except Exception:
+                # A server error batch (RpcError) or an exception raised by the caller's
+                # on_log callback: the stream is not at EOS yet, keep reading -- the
+                # session is already marked closed, so whatever is left here would be
+                # read by the next call on this transport (or the next pool borrower).
+                continue
 
     def cancel(self) -> None:
         """Signal the server to stop processing and discard pending work.
@@ -287,13 +294,21 @@ class StreamSession:
             except (pa.ArrowInvalid, OSError, StopIteration):
                 return
         _MAX_DRAIN = 10_000
-        with contextlib.suppress(StopIteration, RpcError, pa.ArrowInvalid, OSError):
-            for _ in range(_MAX_DRAIN):
+        for _ in range(_MAX_DRAIN):
+            try:
                 # Drained batches are dropped, but a batch that arrived through shared
                 # memory still owns its region: release it or it is never freed.
                 _read_batch_with_log_check(
                     self._output_reader, self._on_log, self._external_config, shm=self._shm
                 ).release()
+            except (StopIteration, pa.ArrowInvalid, OSError):
+                break
+            except Exception:
+                # A server error batch (RpcError) or an exception raised by the caller's
+                # on_log callback: the stream is not at EOS yet, keep reading -- the
+                # session is already marked closed, so whatever is left here would be
+                # read by the next call on this transport (or the next pool borrower).
+                continue
 
     def __enter__(self) -> StreamSession:
         """Enter context manager."""
@@ -423,7 +438,11 @@ class _RpcProxy:
                     header=header,
                 )
                 if hasattr(transport, "_last_stream_session"):
-                    object.__setattr__(transport, "_last_stream_session", session)  # __slots__
+                    # Keep an earlier session that is still open: the pool must go on
+                    # seeing it as abandoned even if this later session is closed properly.
+                    prev = getattr(transport, "_last_stream_session", None)
+                    if prev is None or prev._closed:
+                        object.__setattr__(transport, "_last_stream_session", session)  # __slots__
                 return session
             except RpcError:
                 raise
